@@ -57,9 +57,9 @@ def check(ctx):
     rets = s.returns
     ctx.sites("C15.R1", len(rets), 2, "returns of GaussianModel.fit")
     # ---- R2 -----------------------------------------------------------------------------------------
-    ncal = ("sub", ("attr", CONF, "shape"), ("const", 0))
+    ncal = ir.nrows(CONF)
     e = [(pc, t, n) for pc, t, n in rets if pc]
-    ok2 = any(pc[-1][1] and pc[-1][0] == ("cmp", "==", ncal, ("const", 0)) and t == ("call", ("attr", SELF, "_empty_gaussian_model"), (CONF, AGG), ())
+    ok2 = any(pc[-1][1] and pc[-1][0] == ("cmp", "==", ncal, ("const", 0)) and t == ir.repo_call(("attr", SELF, "_empty_gaussian_model"), [("conformalization_data", CONF), ("aggregate", AGG)])
               for pc, t, n in e)
     ctx.ob("C15.R2.empty", f"{f.qualname}|no calibration units => empty model", ok2, f.where(),
            "fit returns the empty model when there are no calibration units" if ok2 else "no early return of the empty model for an empty calibration set")
@@ -119,7 +119,7 @@ def check(ctx):
         detail = ("large groups (count >= the same threshold) keep their own fit on their own calibration / reporting / nonreporting units" if oklg
                   else f"large-group selection: threshold complementary={sel_ok}, restricted to calibration data of those groups={join_ok}, frames semi-joined={rn}")
     ctx.ob("C15.R1.own", f"{f.qualname}|large groups: own fit, complementary selection", oklg, f.where(), detail)
-    okper = PER == ("call", ("attr", SELF, "_fit"), (CONF, E, AGG, ("param", "alpha")), ())
+    okper = PER == ir.repo_call(("attr", SELF, "_fit"), [("conformalization_data", CONF), ("estimand", E), ("aggregate", AGG), ("alpha", ("param", "alpha"))])
     ctx.ob("C15.R1.leaf", f"{f.qualname}|all groups large: per-group statistics", okper, f.where(),
            "when every group is large enough the per-group statistics are computed directly" if okper else f"leaf is {ir.show(PER, maxdepth=3)}")
 
@@ -142,7 +142,7 @@ def check(ctx):
     G = ("param", "g")
     last = ("sub", G, ir.I(("fstr", (("const", "last_election_results_"), E))))
     q34 = symexpr.Normalizer().norm(symexpr.parse("(3 + alpha) / 4"))
-    ok_inf = d.get("var_inflate") == ("call", ("global", f"{MU}:compute_inflate"), (last,), ())
+    ok_inf = d.get("var_inflate") == ir.repo_call(("global", f"{MU}:compute_inflate"), [("x", last)])
     ctx.ob("C15.R4.inflate", f"{ff.qualname}|var_inflate from the group's baseline weights", ok_inf, ff.where(),
            "var_inflate = compute_inflate(baseline votes of the group's calibration units)" if ok_inf else f"var_inflate = {ir.show(d.get('var_inflate'), maxdepth=3)}")
     for side in ("lower", "upper"):
@@ -350,7 +350,7 @@ def check(ctx):
                    "remaining bounds x remaining models: inner join on the parent keys, cross join when there is no parent key" if okj
                    else "join of remaining bounds and models is not inner-on-parent-keys / cross-at-top")
             asserts = [t for pc, t, n in as_.effects if t[0] == "call" and t[1] == ("global", "assert")]
-            okas = any("shape[0] <= 1" in ir.show(t, maxdepth=6) for t in asserts)
+            okas = any(x[0] == "cmp" and x[1] == "<=" and x[3] == ("const", 1) and x[2][0] == "call" and x[2][1] == ("global", "len") for t in asserts for x in ir.walk(t))
             ctx.ob("C15.R3.single-top", f"{af.qualname}|at most one model at the top", okas, af.where(),
                    "the cross join is guarded by 'at most one all-units model'" if okas else "nothing ensures a single top-level model before the cross join")
             # remaining bounds: rows of BOUNDS not yet in the matched set
